@@ -947,6 +947,7 @@ func init() {
 				if !panics {
 					return true
 				}
+				bounded := false
 				inspect(is.Cond, func(m ast.Node) bool {
 					be, ok := m.(*ast.BinaryExpr)
 					if !ok || !r.isParam(nk, be.X, 0) {
@@ -956,11 +957,29 @@ func init() {
 						v := 0
 						sscanInt(tv.Value.String(), &v)
 						if (be.Op == token.GTR && v <= 65535 && v >= 1) || (be.Op == token.GEQ && v <= 65536 && v >= 2) {
-							guard = true
+							bounded = true
 						}
 					}
 					return true
 				})
+				if !bounded {
+					return true
+				}
+				// ... and the whole condition holds for every count above all the constants it mentions
+				// (`count < 1 && count > 65535` mentions the bound but never fires)
+				pn := nk.Obj.Type().(*types.Signature).Params().At(0).Name()
+				m := orderdom.New(ni, map[string]string{pn: "n"})
+				res := m.CheckExpr(is.Cond, func(e odEnv) bool {
+					for sym, rk := range e.Rank {
+						if strings.HasPrefix(sym, "#") && e.Rank["n"] <= rk {
+							return false
+						}
+					}
+					return true
+				}, func(e odEnv) orderdom.Value { return orderdom.Bool(true) })
+				if res.Undecided == "" && res.Mismatch == nil && res.Orderings > 0 {
+					guard = true
+				}
 				return true
 			})
 			r.Site(nk.Decl.Pos(), "NewKeySpace bounds the key-group count by 65535")
